@@ -65,6 +65,8 @@ theorem core_unchecked_same (w S : Nat) (args : List Int) (pr : Core.CProg) (hw 
     | defeat => rfl
     | retv v => rfl
     | ovf => exact absurd rfl hno
+    | brk => rfl
+    | cnt => rfl
   rw [ht] at h1 h0
   exact ⟨m1, m0, h1, h0⟩
 
